@@ -389,6 +389,9 @@ def run_import(case, out):
     rng = np.random.default_rng(case["seed"])
     ang = np.array(case["angles"][:n], float)  # (rot, tilt, psi)
     pos = np.round(rng.uniform(-50, 500, (n, 3)) * 2) / 2
+    int_pos = case["seed"] % 3 == 0
+    if int_pos:
+        pos = np.round(pos)  # picked positions are commonly whole voxels and then written without a decimal point
     origin = np.round(rng.uniform(-6, 6, (n, 3)), 3)
     origin[rng.random(n) < 0.2] = 0.0
     tomo = np.sort(rng.integers(1, 40, n)).astype(float)
@@ -412,7 +415,7 @@ def run_import(case, out):
     numeric = case["names"] == "numeric"
     d = {}
     for k, ax in enumerate("XYZ"):
-        d["rlnCoordinate" + ax] = pos[:, k].tolist()
+        d["rlnCoordinate" + ax] = [int(p_) for p_ in pos[:, k]] if int_pos else pos[:, k].tolist()
     d["rlnAngleRot"], d["rlnAngleTilt"], d["rlnAnglePsi"] = ang[:, 0].tolist(), ang[:, 1].tolist(), ang[:, 2].tolist()
     d[tname] = [int(t) for t in tomo] if numeric else [fill(tf, t) for t in tomo]
     d[sname] = [int(s_) for s_ in sub] if numeric else [fill(sf, t, s_) for t, s_ in zip(tomo, sub)]
@@ -510,6 +513,19 @@ def run_import(case, out):
                 out.fail("import:second_import_of_same_frame_differs", sub.violations[0][0] + " " + sub.violations[0][1])
     if not case["give_version"] and hasattr(m, "version"):
         out.check(float(m.version) == float(v), "import:version_detection", f"{m.version} vs {v}")
+    if not out.violations and not numeric and case["via"] != "relion2stopgap" and case["give_version"] and px_via == "column":
+        # workflow import -> export: the imported list, exported again by the same object, still describes the same total positions
+        out.label("import_then_export", "integer_written_coordinates" if int_pos else "decimal_coordinates")
+        ok, rdf = call(out, "create_relion_df(after import)", lambda: m.create_relion_df(tomo_format=tf, subtomo_format=sf))
+        if ok and out.check(all(("rlnCoordinate" + ax) in rdf.columns for ax in "XYZ") and all(o_ in rdf.columns for o_ in onames) and len(rdf) == n,
+                            "import_then_export:columns", lambda: list(rdf.columns)):
+            C_ = np.column_stack([rdf["rlnCoordinate" + ax].to_numpy(dtype=float) for ax in "XYZ"])
+            O_ = np.column_stack([rdf[o_].to_numpy(dtype=float) for o_ in onames])
+            tot = C_ - (O_ / px if v >= 3.1 else O_)
+            want = pos + shift
+            err = np.abs(tot - want)
+            out.check(bool(err.max() <= 1e-6 * max(1.0, px)), "import_then_export:total_position_not_preserved",
+                      lambda: f"row {int(np.argmax(err.max(axis=1)))}: {tot[int(np.argmax(err.max(axis=1)))].tolist()} vs {want[int(np.argmax(err.max(axis=1)))].tolist()}")
 
 
 # rejected calls that run before every case (vlib/faults.py): nothing they leave behind - module state, library options,
